@@ -72,6 +72,21 @@ CHECKS = {
    "1-5 pages incl. empty first/middle pages and a single page, binary cookies, other controls around the paging control, three adapter chains, caller-supplied paging control, early finish; the scripted server bounds the number of requests and flags any request after the empty cookie.",
    "Trusted base: SIM, strict request decoder, response model.",
    "DESIGN.md §3 C16", "harness"),
+ "C04": ("fault_enumeration",
+   "property-based scenario generation (proptest) + exhaustive fault injection: every connection-failure kind at every byte boundary of the scenario's request and response streams on the deterministic simulated connection, virtual-clock watchdog as hang detector",
+   "Per generated scenario (1-5 pending operations/streams, merge order, read/write segmentation) the response and request streams are fixed by a fault-free run; then EOF and reset after every byte, undecodable frames and unbind at every PDU boundary, write failure after every request byte and last-handle drop are injected and each run is judged (termination, delivered responses intact, all other pending work fails, later operations fail immediately, transport closed).",
+   "Trusted base: SIM (scripted transport with fault injection, paused clock => the watchdog firing proves a future can never complete; a reader polling a finished transport >2000 times is parked and reported as livelock). Client-side events are injected at driver quiescence only.",
+   "DESIGN.md §3 C04", "harness"),
+ "C05": ("exploration",
+   "property-based testing (proptest), model-based: the real allocator driven through hooks against a reference model from generated table states; end-to-end wave histories near the wrap point on the simulated connection; real-thread stress lane checking uniqueness",
+   "Allocator vs. reference model from arbitrary (counter, in-use) states incl. clusters at both ends of the id space; the scripted server verifies range/uniqueness of ids of outstanding requests across the MAX->1 wrap; 2-16 OS threads allocate concurrently on clones and no id may repeat.",
+   "Trusted base: hooks verif_msgmap/verif_next_msgid; thread interleavings inside the critical section are sampled, not enumerated.",
+   "DESIGN.md §3 C05", "harness"),
+ "C12": ("exploration",
+   "property-based testing (proptest) of generated timed histories on the paused virtual clock; exact-instant oracle (1 ms granularity), token tracing for late replies, id-table hooks for release/reuse",
+   "Timed and untimed single operations and searches with scripted arrival instants before/after/never relative to the deadline; timeouts must fire at start+T (per next() call for searches), other and later operations complete with their own tokens, late replies reach nobody, timed-out ids are released and handed out again.",
+   "Trusted base: tokio paused clock (time advances only at global idleness), SIM, hooks. No ties (|arrival-deadline| >= 2 ms).",
+   "DESIGN.md §3 C12", "harness"),
 }
 
 NOT_YET = {}
